@@ -155,11 +155,11 @@ pub open spec fn mrows<Null: Nullable>(adj: Seq<Null>, w: int, a: int, r: int) -
     if !(0 <= a < w && 0 <= r < w) { Seq::empty() }
     else { (if adj[lin_pos(true, r, a, w)].nv() is Some { seq![r] } else { Seq::empty() }) + mrows(adj, w, a, r + 1) }
 }
-/// the column scan is the occupied rows, each with its cell's weight; the queried node comes first, the far end second
+/// the column scan is the occupied rows, each with its cell's weight: source = the row, target = the queried node
 pub proof fn lemma_mscan_is_mrows<'a, Null: Nullable, Ix: IndexType>(adj: Seq<Null>, w: int, a: int, r: int)
     requires 0 <= r
     ensures ({ let s = mscan::<Null, Ix>(adj, true, w, true, r, a); let rs = mrows(adj, w, a, r);
-        s.len() == rs.len() && forall|i: int| 0 <= i < rs.len() ==> (#[trigger] s[i]).0 == NodeIndex::<Ix>(Ix::spec_new(a as usize)) && s[i].1 == NodeIndex::<Ix>(Ix::spec_new(rs[i] as usize))
+        s.len() == rs.len() && forall|i: int| 0 <= i < rs.len() ==> (#[trigger] s[i]).1 == NodeIndex::<Ix>(Ix::spec_new(a as usize)) && s[i].0 == NodeIndex::<Ix>(Ix::spec_new(rs[i] as usize))
             && adj[lin_pos(true, rs[i], a, w)].nv() == Some(*s[i].2) })
     decreases w - r
 {
@@ -187,7 +187,7 @@ pub proof fn lemma_mrows<Null: Nullable>(adj: Seq<Null>, w: int, a: int, r: int)
 
 impl<N, E, S: BuildHasher, Null: Nullable<Wrapped = E>, Ix: IndexType> MatrixGraph<N, E, S, Directed, Null, Ix> {
     /// the neighbours `neighbors_directed(a, Incoming)` yields
-    pub open spec fn col_nbrs(&self, a: int) -> Seq<NodeIndex<Ix>> { mtargets::<Null, Ix>(mscan::<Null, Ix>(self.node_adjacencies@, true, self.cap(), true, 0, a)) }
+    pub open spec fn col_nbrs(&self, a: int) -> Seq<NodeIndex<Ix>> { msources::<Null, Ix>(mscan::<Null, Ix>(self.node_adjacencies@, true, self.cap(), true, 0, a)) }
     /// exactly the b with an edge b -> a, ascending, all of them live nodes
     pub proof fn lemma_col_nbrs(&self, a: int)
         requires self.wf(), 0 <= a
